@@ -12,6 +12,7 @@ EXPLANATION = ("C18: ring discipline of nni_lmq / nni_msgq (every cursor increme
                "cursor that nothing but the allocator moves."
                " Also: the allocation cursor is seeded only on first use or wrap, and resize walks the old ring with its allocation size and wraps surviving cursors with the new extent (R8).")
 EXPLANATION += " Round 3: lmq_mask is the storage's extent minus one wherever storage is installed (R9); drain loops end only when the count is zero (R10)."
+EXPLANATION += ' Round 5: a removal replaces the id table only once the map is empty, because the visit cursor is a table index (R14).'
 
 RING = {"nni_lmq.lmq_msgs": ("nni_lmq.lmq_get", "nni_lmq.lmq_put", "nni_lmq.lmq_mask", "nni_lmq.lmq_len", "nni_lmq.lmq_cap"),
         "nni_msgq.mq_msgs": ("nni_msgq.mq_get", "nni_msgq.mq_put", "nni_msgq.mq_alloc", "nni_msgq.mq_len", "nni_msgq.mq_cap")}
@@ -613,6 +614,98 @@ def rule_r12(ctx):
         raise AnalysisBroken("only %d slot tests found in idhash.c" % n)
 
 
+# ---------------------------------------------------------------------------
+# R14: the table stays in place under the operations that are allowed while iterating
+
+ITER_SAFE = ("nni_id_remove",)     # docs/ref/api/id_map.md: "Entries may be safely removed from map while iterating."
+
+
+def _count_zero_edges(f):
+    """{(block, succ)}: edges on which the map's id_count is known to be zero"""
+    out = set()
+
+    def is_count(n):
+        while n is not None and n.get("k") == "cast":
+            n = n["e"]
+        return n is not None and n.get("k") == "mem" and (last_field(n) or "").endswith(".id_count")
+    for bid, k, atom, val in G.edge_facts(f):
+        if is_count(atom) and not val:
+            out.add((bid, k))
+        elif atom.get("k") == "bin":
+            l, r_, op = atom["lhs"], atom["rhs"], atom["op"]
+            if is_count(r_) and not is_count(l):
+                l, r_ = r_, l
+                op = {"<": ">", ">": "<", "<=": ">=", ">=": "<="}.get(op, op)
+            if not is_count(l):
+                continue
+            c = const_of(r_)
+            if (op == "==" and c == 0 and val) or (op == "!=" and c == 0 and not val) or (op == ">" and c == 0 and not val) or \
+                    (op == ">=" and c == 1 and not val) or (op == "<" and c == 1 and val) or (op == "<=" and c == 0 and val):
+                out.add((bid, k))
+    return out
+
+
+def rule_r14(ctx):
+    r = ctx.rule("C18.R14", "T2", "the visit cursor is an index into the table, and entries may be removed while iterating: nni_id_remove "
+                 "replaces the table (a call that reaches a store of new storage into id_entries / a new extent into id_cap) only "
+                 "on the edge on which the map has become empty -- a rehash with entries left moves them under the cursor and "
+                 "nng_id_visit never reports them", floor=1)
+    prog = ctx.prog
+    fns = [f for f in prog.fns_in("core/idhash.c") if not f.cfg_failed]
+    reloc = set()
+    for f in fns:
+        for t in f.assigns():
+            l = t.node["lhs"]
+            if l.get("k") == "mem" and (last_field(l) or "").endswith(("nni_id_map.id_entries", "nni_id_map.id_cap")):
+                rhs = f.expand(t.node["rhs"])
+                if not is_null(rhs) and const_of(rhs) != 0:
+                    reloc.add(f.name)
+    if not reloc:
+        raise AnalysisBroken("no function of idhash.c installs table storage (id_entries / id_cap)")
+    changed = True
+    while changed:      # static helpers that reach a relocator
+        changed = False
+        for f in fns:
+            if f.name not in reloc and f.static and any(c.node.get("fn") in reloc for c in f.calls()):
+                reloc.add(f.name)
+                changed = True
+    for name in ITER_SAFE:
+        f = prog.need(name, "core/idhash.c")
+        zero = _count_zero_edges(f)
+        sites = [c for c in f.calls() if c.node.get("fn") in reloc]
+        writes = {(t.b, t.i) for t in f.sites() if (
+            (t.node.get("k") == "asg" and t.node["lhs"].get("k") == "mem" and (last_field(t.node["lhs"]) or "").endswith(".id_count")) or
+            (t.node.get("k") == "un" and t.node.get("op") in ("++", "--") and (last_field(t.node["e"]) or "").endswith(".id_count")))}
+        if name in reloc and not f.static:
+            direct = [t for t in f.assigns() if t.node["lhs"].get("k") == "mem" and
+                      (last_field(t.node["lhs"]) or "").endswith(("nni_id_map.id_entries", "nni_id_map.id_cap"))]
+            for t in direct:
+                ctx.fail(r, f, "%s replaces the table itself" % name, t.line,
+                         "%s stores into %s: the table moves under a visit cursor" % (name, show(t.node["lhs"])))
+        if not sites:
+            r.ob(f, "%s reaches no function that replaces the table (%s)" % (name, ", ".join(sorted(reloc))))
+        for c in sites:
+            # dominated by an id_count == 0 edge, with no later change of id_count on the way to the call
+            ok = False
+            for (b, k) in zero:
+                if not G.dominated(f, (c.b, c.i), {b: k}):
+                    continue
+                succ = f.blocks[b].succs[k]
+                if succ is None:
+                    continue
+                seen = f.reach((succ, 0), blocked=lambda bb, ii, e: (bb, ii) in writes)
+                if (c.b, c.i) in seen and not any(w in seen and (c.b, c.i) in f.reach((w[0], w[1] + 1)) for w in writes):
+                    ok = True
+                    break
+            if ok:
+                r.ob(f, "%s at line %s only once the map is empty" % (c.node["fn"], c.line))
+            else:
+                ctx.fail(r, f, "%s rehashes with entries left" % name, c.line,
+                         "%s calls %s at line %s without having established id_count == 0: the table is replaced while "
+                         "entries remain, a cursor handed out by nni_id_visit then points into unrelated slots and live "
+                         "entries are skipped (docs: entries may be removed while iterating)" % (name, c.node["fn"], c.line))
+
+
 def run(ctx):
     ctx.guard(rule_r1)
     ctx.guard(rule_r2)
@@ -624,6 +717,7 @@ def run(ctx):
     ctx.guard(rule_r10)
     ctx.guard(rule_r11)
     ctx.guard(rule_r12)
+    ctx.guard(rule_r14)
     from . import c08
     ctx.guard(c08.rule_r6)        # the pair sockets' receive buffer stays first-in first-out
     for rr in ctx.rules:
